@@ -42,11 +42,18 @@ Section NoWorse.
         rewrite name_eqb_refl in Eq. discriminate.
   Qed.
 
+  Lemma process_value_rec_cpres w : cpres (process_value_rec w).
+  Proof.
+    intros s s' H K. destruct (process_value_rec_ok _ _ _ H) as [s1 [E ->]].
+    pose proof (process_value_cpres w s s1 E K) as [A B].
+    destruct (negb (memN w (f_seen s))); constructor; simpl; assumption.
+  Qed.
+
   Lemma process_values_cpres ws : cpres (process_values ws).
   Proof.
     induction ws as [|w r IH]; simpl.
     - intros s s' H K. inversion H; subst. exact K.
-    - apply (cpres_bind (process_value w) (process_values r)); [apply process_value_cpres | exact IH].
+    - apply (cpres_bind (process_value_rec w) (process_values r)); [apply process_value_rec_cpres | exact IH].
   Qed.
 
   Lemma process_node_name_cpres m : cpres (process_node_name m).
@@ -62,7 +69,7 @@ Section NoWorse.
   Proof.
     destruct e as [gid isfunc ins outs| |nid nins nouts].
     - intros s s' H K. simpl in H. destruct (f_vscopes s) as [|top rest] eqn:Hsc; [inversion H|].
-      set (s1 := mkF (f_vx s) (f_nx s) (f_rv s) (f_rn s) (f_vn s) (f_nn s) (f_inits s) (f_seen s) (f_vcnt s) (f_ncnt s)
+      set (s1 := mkF (f_own s) (gid :: f_so s) (f_vx s) (f_nx s) (f_rv s) (f_rn s) (f_vn s) (f_nn s) (f_inits s) (f_seen s) (f_vcnt s) (f_ncnt s)
                      (top :: top :: rest) ([] :: f_nscopes s) (f_mod s)) in *.
       assert (K1 : CInv s1) by (destruct K as [A B]; constructor; simpl; assumption).
       revert H K1.
@@ -93,8 +100,8 @@ Section NoWorse.
 End NoWorse.
 
 (* one _fix_graph_names run over any graph, any scoping, that does not raise *)
-Theorem fix_never_worse g vx nx vn nn inits m s' :
-  fix_graph_names g vx nx vn nn inits m = (s', None) ->
+Theorem fix_never_worse g own vx nx vn nn inits m s' :
+  fix_graph_names g own vx nx vn nn inits m = (s', None) ->
   (* a changed name is new to the whole graph_like *)
   (forall v w x, f_vn s' v = Some x -> x <> [] -> f_vn s' v <> vn v ->
      In w (ev_values (events_graph g)) -> vn w <> Some x) /\
@@ -105,7 +112,7 @@ Theorem fix_never_worse g vx nx vn nn inits m s' :
 Proof.
   intros H. unfold fix_graph_names in H.
   destruct (collect_names (events_graph g) vn nn inits) as [rv rn] eqn:Ec.
-  assert (K0 : CInv vn rv (fx_init vx nx rv rn vn nn inits m)) by (constructor; simpl; auto).
+  assert (K0 : CInv vn rv (fx_init own vx nx rv rn vn nn inits m)) by (constructor; simpl; auto).
   pose proof (fx_events_cpres vn rv _ _ _ H K0) as [C _].
   assert (Hrv : forall w x, In w (ev_values (events_graph g)) -> vn w = Some x -> x <> [] -> In x rv).
   { intros w x Hw E Hx. pose proof (collect_values (events_graph g) vn nn inits w x Hw E Hx) as X.
